@@ -44,9 +44,6 @@ theorem witness_wildcard_reparsed : fails "_default_:a?b".toList .wildcardRepars
 /-- D_keyword_prefix: `\ANDROID` prints as `ANDROID`, which is not a `TERM` (it starts with `AND`) -/
 theorem witness_keyword_prefix : fails "\\ANDROID".toList .keywordPrefix = true := by decide +kernel
 
-/-- D_unicode3000: the literal "UNICODE3000" in `INVALID_TERM_STARTS` -/
-theorem witness_unicode3000 : fails "a\\UNICODE3000".toList .unicode3000 = true := by decide +kernel
-
 /-- D_number_text: `f:>1.0` prints as `f:>1` (an integer) -/
 theorem witness_number_text : fails "f:>1.0".toList .numberText = true := by decide +kernel
 
@@ -65,21 +62,42 @@ theorem witness_none_nested : fails "a (-*:*)".toList .noneNested = true := by d
 /-- D_not_not_in_and: `-(-a) b` prints as `NOT NOT a AND b` -/
 theorem witness_not_not_in_and : fails "-(-a) b".toList .notNotInAnd = true := by decide +kernel
 
-/-- D_blank_query: `(\u{3000})` is a term made of an ideographic space; printed alone it is a blank
-    query, i.e. `MatchAllDocs` -/
-theorem witness_blank_query : fails ['(', Char.ofNat 0x3000, ')'] .blankQuery = true := by decide +kernel
+/-- D_blank_query: `(\u{a0})` is a term made of a no-break space (not WHITESPACE for the grammar, white
+    space for `str::trim`); printed alone it is a blank query, i.e. `MatchAllDocs` -/
+theorem witness_blank_query : fails ['(', '\u00a0', ')'] .blankQuery = true := by decide +kernel
+
+/-- D_space_in_term, ideographic space: since /repo 083e896 U+3000 cannot appear unescaped in a term;
+    `a\\u{3000}b` (escaped) is accepted, `lucene_escape` prints the U+3000 raw, and the text is rejected -/
+theorem witness_ideographic_space : fails ['a', '\\', '\u3000', 'b'] .spaceInTerm = true := by decide +kernel
 
 /-- shapes only a hand-built tree can have -/
-theorem witness_range_mixed :
-    failsTree (.leaf (.range ['f'] (.int 1) true (.int 2) false)) .rangeMixed = true := by decide +kernel
 theorem witness_cmp_unbounded :
     failsTree (.leaf (.comparison ['f'] .gt .unbounded)) .cmpUnbounded = true := by decide +kernel
 theorem witness_not_all : failsTree (.neg (.leaf .matchAll)) .notAll = true := by decide +kernel
 theorem witness_small_boolean :
     failsTree (.bool .and (.cons (.leaf (.term ['f'] ['a'])) .nil)) .smallBoolean = true := by decide +kernel
 
-/-- the parser panics on a range with brackets of two kinds (explicit outcome of the model) -/
-theorem witness_range_panic : parse Fr "f:[1 TO 2}".toList = .panic := by decide +kernel
+/-! ### repaired in /repo -/
+
+/-- the accepted query `q` parses to `t`, `t` is in normal form and comes back from its printed text -/
+def roundTripsTo (q : Str) (t : QNode) : Bool :=
+  decide (parse Fr q = .ok t) && NFRoot Fr t && decide (parse Fr (t.toLucene Fr) = .ok t)
+
+/-- fixed (21ebbb7): a range with brackets of two kinds used to panic in `visit_clause`; it now parses
+    to a range whose bounds are inclusive / exclusive independently, is in normal form and round-trips -/
+theorem fixed_range_mixed :
+    roundTripsTo "f:[1 TO 2}".toList (.leaf (.range ['f'] (.int 1) true (.int 2) false)) = true ∧
+    roundTripsTo "f:{a TO *]".toList (.leaf (.range ['f'] (.str ['a']) false .unbounded true)) = true := by
+  decide +kernel
+
+/-- fixed (083e896): the text "UNICODE3000" is an ordinary part of a term -/
+theorem fixed_unicode3000 :
+    roundTripsTo "a\\UNICODE3000".toList (.leaf (.term defaultField "aUNICODE3000".toList)) = true ∧
+    roundTripsTo "UNICODE3000x".toList (.leaf (.term defaultField "UNICODE3000x".toList)) = true := by
+  decide +kernel
+
+/-- … and U+3000 cannot start a term any more (it is still not WHITESPACE: the query is rejected) -/
+theorem fixed_ideographic_start : parse Fr ['\u3000', 'a'] = .err := by decide +kernel
 
 /-- non-vacuity of `roundtrip_partial`: a query with a tag term, an escaped term, a phrase, a prefix,
     a wildcard, a float comparison, a range, negation, `AND`/`OR` nesting — accepted, in normal form,
